@@ -616,6 +616,7 @@ func runHistory(p *prefix, t *tmpl, events []int, states map[string]bool, mu *sy
 			}
 		}
 	}
+	var heldBack []int // headers-first: delivered, waiting in the node's cache for an ancestor's data
 	offer := func(i int) string {
 		if hf {
 			// the client's own route: data of an announced block; blocks held back for a missing
@@ -626,10 +627,17 @@ func runHistory(p *prefix, t *tmpl, events []int, states map[string]bool, mu *sy
 				for k, b := range t.blocks {
 					if b.Hash() == d.Hash {
 						note(k, "  from-cache", d.Result)
+						for x, hb := range heldBack {
+							if hb == k {
+								heldBack = append(heldBack[:x:x], heldBack[x+1:]...)
+								break
+							}
+						}
 					}
 				}
 			}
 			if r == "cached" {
+				heldBack = append(heldBack, i)
 				return "ok-cached"
 			}
 			return r
@@ -688,19 +696,46 @@ func runHistory(p *prefix, t *tmpl, events []int, states map[string]bool, mu *sy
 			}
 		case evn == -2:
 			e.Close()
-			e = minichain.Open(dir+"/d", &minichain.Opts{Params: params})
+			if hf {
+				// the client's way: no re-apply inside NewChainExt, its own catch-up afterwards
+				o := &minichain.Opts{Params: params}
+				o.ChainOpts.DoNotRescan = true
+				e = minichain.Open(dir+"/d", o)
+			} else {
+				e = minichain.Open(dir+"/d", &minichain.Opts{Params: params})
+			}
 			if cbs {
 				e.Shadow()
 			}
 			reopened = true
 			atomic.AddInt64(trans, 1)
 			trace = append(trace, step{Ev: "close+reopen"})
+			if hf {
+				for _, d := range e.CatchUp() {
+					for k, b := range t.blocks {
+						if b.Hash() == d.Hash {
+							trace = append(trace, step{Ev: "  catch-up " + t.names[k], Result: d.Result})
+						}
+					}
+				}
+			}
 			// After a restart the first-seen order among equal-work leaves is not
 			// recoverable from disk; only the UTXO/tip consistency is judged here.
 			tip, _ := e.Tip()
 			n := m.Nodes[tip]
 			if n == nil || !m.Valid(n) {
-				return fail("reopen-tip-invalid", "after reopen the tip is not a known valid block")
+				tn := fmt.Sprintf("%x (unknown to the reference)", tip[:6])
+				for i, b := range t.blocks {
+					if b.Hash() == tip {
+						tn = t.names[i]
+						if n != nil {
+							tn += " [" + m.Why(n) + "]"
+						} else {
+							tn += " (delivered, never committed)"
+						}
+					}
+				}
+				return fail("reopen-tip-invalid", "after reopen the tip is not a known valid block: "+tn)
 			}
 			want := m.UTXOAt(n)
 			_, wh := refchain.Dump(want)
@@ -713,6 +748,25 @@ func runHistory(p *prefix, t *tmpl, events []int, states map[string]bool, mu *sy
 			}
 			if n != m.BestTips()[0] {
 				return nil // tie resolved differently after restart: history ends here (not judged)
+			}
+			if hf {
+				// the restarted node learns the headers again from its peers, and the blocks it had only
+				// held in memory (not committed, hence not stored) are delivered again
+				for _, h := range t.hdrOrder() {
+					k := -100 - h
+					r := e.Announce(t.blocks[k].Bytes()[:80])
+					trace = append(trace, step{Ev: "header " + t.names[k] + " (again)", Result: r})
+				}
+				lost := heldBack
+				heldBack = nil
+				for _, i := range lost {
+					offer(i)
+				}
+				if len(lost) > 0 {
+					if o := check("re-delivery of held-back blocks after the restart"); o != nil {
+						return o
+					}
+				}
 			}
 		}
 	}
@@ -1027,6 +1081,11 @@ func main() {
 			if hfOn(t, r.Thorough()) {
 				// headers-first, as the client works: every header announced (parents first) before any data
 				jobs <- job{t, append(append([]int{-4}, t.hdrOrder()...), a...)}
+				// ... and the same with one restart in the middle of the data
+				mid := len(a) / 2
+				hr := append(append([]int{-4}, t.hdrOrder()...), a[:mid]...)
+				hr = append(append(hr, -2), a[mid:]...)
+				jobs <- job{t, hr}
 				if r.Thorough() {
 					jobs <- job{t, append([]int{-4}, a...)}
 					// headers one step ahead of the data: before a block's data, its own header and its children's
